@@ -18,7 +18,7 @@ from . import mlog, environment
 from functools import wraps
 from .mparser import Token, ArrayNode, ArgumentNode, ArithmeticNode, AssignmentNode, BaseNode, StringNode, BooleanNode, DictNode, ElementaryNode, IdNode, FunctionNode, PlusAssignmentNode
 from .mintro import IntrospectionEncoder
-import json, os, re, sys, codecs
+import json, os, re, sys
 import typing as T
 from pathlib import Path
 
@@ -146,7 +146,7 @@ class MTypeStr(MTypeBase):
     def new_node(cls, value: T.Optional[str] = None) -> BaseNode:
         if value is None:
             value = ''
-        return StringNode(Token('string', '', 0, 0, 0, None, str(value)))
+        return StringNode(Token('string', '', 0, 0, 0, None, str(value)), escape=False)
 
     @classmethod
     def supported_nodes(cls) -> T.List[type]:
@@ -272,7 +272,7 @@ class MTypeStrList(MTypeList):
 
     @classmethod
     def _new_element_node(cls, value: str) -> StringNode:
-        return StringNode(Token('string', '', 0, 0, 0, None, str(value)))
+        return StringNode(Token('string', '', 0, 0, 0, None, str(value)), escape=False)
 
     @staticmethod
     def _check_is_equal(node: BaseNode, value: str) -> bool:
@@ -790,9 +790,8 @@ class Rewriter:
             # print("adding ", str(newf), 'to', mocktarget.name) todo: should we write something to stderr?
 
             path = relpath(newf, newfiles_relto)
-            path = codecs.encode(path, 'unicode_escape').decode() # Because the StringNode constructor does the inverse
             token = Token('string', chosen.filename, 0, 0, 0, None, path)
-            to_append += [StringNode(token)]
+            to_append += [StringNode(token, escape=False)]
 
         assert isinstance(chosen, (FunctionNode, ArrayNode))
         arg_node = chosen.args
@@ -920,7 +919,7 @@ class Rewriter:
             src_far_node = ArgumentNode(Token('string', filename, 0, 0, 0, None, ''))
             src_fun_node = FunctionNode(IdNode(Token('id', filename, 0, 0, 0, (0, 0), 'files')), _symbol('('), src_far_node, _symbol(')'))
             src_ass_node = AssignmentNode(IdNode(Token('id', filename, 0, 0, 0, (0, 0), source_id)), _symbol('='), src_fun_node)
-            src_arg_node.arguments = [StringNode(Token('string', filename, 0, 0, 0, None, x)) for x in cmd['sources']]
+            src_arg_node.arguments = [StringNode(Token('string', filename, 0, 0, 0, None, x), escape=False) for x in cmd['sources']]
             src_far_node.arguments = [src_arr_node]
 
             # Build target
@@ -928,7 +927,7 @@ class Rewriter:
             tgt_fun_node = FunctionNode(IdNode(Token('id', filename, 0, 0, 0, (0, 0), cmd['target_type'])), _symbol('('), tgt_arg_node, _symbol(')'))
             tgt_ass_node = AssignmentNode(IdNode(Token('id', filename, 0, 0, 0, (0, 0), target_id)), _symbol('='), tgt_fun_node)
             tgt_arg_node.arguments = [
-                StringNode(Token('string', filename, 0, 0, 0, None, cmd['target'])),
+                StringNode(Token('string', filename, 0, 0, 0, None, cmd['target']), escape=False),
                 IdNode(Token('string', filename, 0, 0, 0, None, source_id))
             ]
 
